@@ -47,5 +47,9 @@ func checkC12(c *Ctx, r *Report) {
 	runEMAKE(c, r, reach, "the encode entry points")
 	runEDIV(c, r, reach, "the encode entry points")
 	runETableIdx(c, r, reach, "the encode entry points", 1)
+	runECONSTIDX(c, r, reach, roots, "the encode entry points", 1)
+	// the Data Matrix ECC step indexes its codeword buffer by the symbol table's counts (data + error codewords, blocks x
+	// check words per block): the table rules decide that those agree
+	checkDMTables(c, r)
 	r.Note("not decided: termination of the Data Matrix mode loop (needs a ranking argument over data-dependent rewinds); the size clause (matrix never smaller than the symbol / the request) is decided by the rendering terms under C14")
 }
